@@ -287,8 +287,14 @@ def parse_coeffs(s):
     return out
 
 
-def coeffs_close(model, impl):
-    """model: parsed; impl: python coefflist.  Returns None if equal within TOL else a reason."""
+def coeffs_close(model, impl, rel=False):
+    """model: parsed; impl: python coefflist.  Returns None if equal within TOL else a reason.
+    rel=True: tolerance relative to the largest coefficient of the whole (model) list, without the floor 1
+    (for inputs whose overall scale runs over many decades)."""
+    gscale = None
+    if rel:
+        gscale = max([float(np.max(np.abs(c))) for _, _, c in model if not isinstance(c, tuple) and c.size] + [0.0])
+        if gscale == 0.0: gscale = 1.0
     if len(model) != len(impl):
         return 'different number of terms: model %s impl %s' % ([(n, l) for n, l, _ in model], [(n, l) for n, l, _ in impl])
     for (n, l, c), (n2, l2, c2) in zip(model, impl):
@@ -300,7 +306,7 @@ def coeffs_close(model, impl):
             if c2.shape[0] != c.shape[0]: return 'row count differs in (%d,%d)' % (n, l)
         if c.shape != c2.shape:
             return 'shape differs in (%d,%d): model %s impl %s' % (n, l, c.shape, c2.shape)
-        scale = max(1.0, float(np.max(np.abs(c))) if c.size else 1.0)
+        scale = gscale if rel else max(1.0, float(np.max(np.abs(c))) if c.size else 1.0)
         if c.size and float(np.max(np.abs(c - c2))) > TOL * scale:
             return 'coefficients differ in (%d,%d) by %.3g' % (n, l, float(np.max(np.abs(c - c2))))
     return None
